@@ -1,6 +1,6 @@
 /-
-C13, assembled: the scores two searches — of a position and of its colour mirror — report for the
-same completed depth are negations of each other.
+C13, assembled: the scores two searches (shipped configuration, `positional = false`) — of a position and of its
+colour mirror — report for the same completed depth are negations of each other.
 -/
 import ChessVerif.Proofs.Minimax.Exact
 import ChessVerif.Proofs.Minimax.Sym
@@ -22,10 +22,10 @@ expiry indices `k`, `k'`: whenever both searches complete depth `d`, the reporte
 negations (a white mate in n becomes a black mate in n) -/
 theorem search_mirror (b : Board) (hwf : b.WF = true)
     (hnp : ∀ m ∈ mvsOf (legals b), m.piece = none) (k k' d : Nat) (s s' : Score)
-    (h : (d, s) ∈ searchPasses b [] k) (h' : (d, s') ∈ searchPasses b.mirror [] k') :
+    (h : (d, s) ∈ searchPasses false b [] k) (h' : (d, s') ∈ searchPasses false b.mirror [] k') :
     s' = negScore s := by
-  have e1 := searchPasses_exact b hwf [] k hnp (d, s) h
-  have e2 := searchPasses_exact b.mirror (mirror_WF b hwf) [] k' (noPromo_mirror b hwf hnp) (d, s') h'
+  have e1 := searchPasses_exact false b hwf [] k hnp (d, s) h
+  have e2 := searchPasses_exact false b.mirror (mirror_WF b hwf) [] k' (noPromo_mirror b hwf hnp) (d, s') h'
   simp only at e1 e2
   rw [e2, e1, rootValue_mirror b hwf d]
 
